@@ -4,6 +4,7 @@ package stake
 
 import (
 	"bytes"
+	"strconv"
 
 	"github.com/rigochain/rigo-go/ledger"
 	"github.com/rigochain/rigo-go/zzverif"
@@ -174,6 +175,25 @@ func ZZ_C10_U23() {
 		zzverif.Assert(in[i] == wi[i], "U2/U3 block 2: validator set = eligible delegatees of the previous commit, ranked, truncated")
 		if in[i] && wi[i] {
 			zzverif.Assert(set[i] == wp[i], "U2 block 2: voting power = total bonded power")
+		}
+	}
+	// C11: the power queries at the committed height equal the corresponding sums
+	wantVoting, wantTotal := int64(0), int64(0)
+	for i := range ds {
+		wantTotal += ds[i].total
+		if wi[i] {
+			wantVoting += wp[i]
+		}
+	}
+	for _, q := range []struct {
+		path string
+		want int64
+	}{{"stakes/voting_power", wantVoting}, {"stakes/total_power", wantTotal}} {
+		bz, xerr := w.sc.Query(abcitypes.RequestQuery{Path: q.path, Height: 1})
+		zzverif.Assert(xerr == nil, "U2 power query succeeds")
+		if xerr == nil {
+			got, err := strconv.ParseInt(string(bz), 10, 64)
+			zzverif.Assert(err == nil && got == q.want, "U2 "+q.path+" query = sum over the committed delegatees (voting: the ranked, truncated validator set)")
 		}
 	}
 	// change committed by block 2: delegatee 0 gets / loses power, overlay one is dropped again
